@@ -90,7 +90,10 @@ def t_setitem(E, active, yform, xform):
     E.prove(not r.raised, 'never raises')
     if r.raised:
         return
-    E.prove(len(px.stores) == 1, 'exactly one store into the pixel buffer')
+    # at most one store (that every on-screen pixel *is* stored is C31's clause, not this one's)
+    E.prove(len(px.stores) <= 1, 'at most one store into the pixel buffer')
+    if len(px.stores) != 1:
+        return
     ys, xs = px.stores[0]
     def check(s, lo, hi, size, what):
         if isinstance(s, slice):
